@@ -34,6 +34,10 @@ def check(run):
     B.run_stream(run, binp, "cancelledflood", 11, fl, CLAUSES,
                  "output flood into a stalled terminal (capacity 1-3, not drained) and then client cancel: the chunks still waiting are dropped, so "
                  "they must not appear as 'Shell I/O' records either; then the terminal is drained; monitor only")
+    B.run_stream(run, binp, "goneclients", 11, B.gone_clients(run.rng, 60 if run.tier == "quick" else 1500), CLAUSES,
+                 "attempts whose client has already hung up when they reach admission (request context done beforehand) on an idle, half attached "
+                 "and fully attached broker, with the right, a wrong and an empty ID: each is still either attached (and then logged) or refused "
+                 "with its notice and its single error record; monitor only")
     run.assumptions += ["slog.NewJSONHandler's escaping itself is standard library; the check verifies one parsable object per line and record counts, "
                         "data fields are compared before JSON encoding"]
     run.trusted += ["harness/overlay/iobroker", "props/brokerlib.py", "coq/Model/Broker.v tied by this correspondence"]
